@@ -10,6 +10,7 @@ import (
 	"sort"
 	"strings"
 
+	"github.com/pokt-network/pocket-core/store/rootmulti"
 	"github.com/pokt-network/pocket-core/store/types"
 	dbm "github.com/tendermint/tm-db"
 
@@ -279,6 +280,57 @@ func main() {
 							g2, _ := ms.Store.CacheMultiStore().GetKVStore(ms.Keys[st]).Get([]byte(k))
 							t.Line("tgetc", true, "tgetc %d %s %s => %s %s", c.id, st, gen.Hex([]byte(k)), gen.Hex(g), gen.Hex(g2))
 						}
+					}
+					// between this Commit and the next block: historical views (what custom queries / PrevCtx use) at a
+					// retained height; reads and writes on TRANSIENT keys through them must never reach the live stores
+					if len(c.transient) > 0 && r.Chance(1, 2) {
+						hgt := int64(1 + r.Intn(int(id.Version)))
+						for _, tn := range c.transient {
+							hk := []byte{0xa7, byte(bi)}
+							res := func() (out string) {
+								defer func() {
+									if e := recover(); e != nil {
+										out = "panic"
+									}
+								}()
+								lz, err := ms.Store.LoadLazyVersion(hgt)
+								if err != nil {
+									return "err"
+								}
+								kv := (*lz).(*rootmulti.Store).GetKVStore(ms.Keys[tn])
+								_ = kv.Set(hk, []byte{0x01})
+								_ = kv.Delete(msdrive.Key(r, space))
+								_, _ = kv.Get(hk)
+								return fmt.Sprintf("ok:%d", msdrive.Count(kv))
+							}()
+							t.Line("hview", true, "hview %d lazy %d %s => %s", c.id, hgt, tn, res)
+							res2 := func() (out string) {
+								defer func() {
+									if e := recover(); e != nil {
+										out = "panic"
+									}
+								}()
+								cv, err := ms.Store.CacheMultiStoreWithVersion(hgt)
+								if err != nil {
+									return "err"
+								}
+								kv := cv.GetKVStore(ms.Keys[tn])
+								_ = kv.Set(append([]byte{0xa8}, hk...), []byte{0x02}) // never written back
+								_ = kv.Delete(hk)
+								for _, pn := range c.persistent {
+									_ = cv.GetKVStore(ms.Keys[pn]).Set([]byte{0xa9}, []byte{0x03})
+								}
+								return "ok"
+							}()
+							t.Line("hview", true, "hview %d cache %d %s => %s", c.id, hgt, tn, res2)
+						}
+					}
+					// the state the next block starts with
+					for _, tn := range c.transient {
+						kv := ms.KV(tn)
+						g1, _ := kv.Get([]byte{0xa7, byte(bi)})
+						g2, _ := kv.Get([]byte{0xa8, 0xa7, byte(bi)})
+						t.Line("tstart", true, "tstart %d %s => %d %s %s", c.id, tn, msdrive.Count(kv), gen.Hex(g1), gen.Hex(g2))
 					}
 				}
 			}()
